@@ -436,8 +436,8 @@ impl Generator
 	}
 }
 
-/// A private function of the program may have the name of an intrinsic.
-/// Its name does not matter, so it is the one to give up the symbol.
+/// A private function or constant of the program may have the name of an
+/// intrinsic. Its name does not matter, so it is the one to give up the symbol.
 unsafe fn make_way_for_intrinsic(module: LLVMModuleRef, name: &CString)
 {
 	let namesake = LLVMGetNamedFunction(module, name.as_ptr());
@@ -445,6 +445,17 @@ unsafe fn make_way_for_intrinsic(module: LLVMModuleRef, name: &CString)
 		&& LLVMGetLinkage(namesake) == LLVMLinkage::LLVMPrivateLinkage
 	{
 		let renamed = format!("{}.fn", name.to_string_lossy());
+		if let Ok(renamed) = CString::new(renamed)
+		{
+			LLVMSetValueName(namesake, renamed.as_ptr());
+		}
+	}
+	// The same for a private constant.
+	let namesake = LLVMGetNamedGlobal(module, name.as_ptr());
+	if !namesake.is_null()
+		&& LLVMGetLinkage(namesake) == LLVMLinkage::LLVMPrivateLinkage
+	{
+		let renamed = format!("{}.const", name.to_string_lossy());
 		if let Ok(renamed) = CString::new(renamed)
 		{
 			LLVMSetValueName(namesake, renamed.as_ptr());
